@@ -8,7 +8,8 @@
    an effective instruction is <<category, index of the member that wrote it>> *)
 EXTENDS Naturals, Sequences, FiniteSets
 
-Cats == {"map", "child", "ghost"}
+\* the five categories a member-level repeat can select (attr.rs MEMBER_REPEAT_TYPES); on enum variants only map / ghost / type_hint can occur
+Cats == {"map", "child", "parent", "ghost", "type_hint"}
 RepCats(m) == IF m.cats = {} THEN Cats ELSE m.cats         \* `repeat` without categories repeats everything
 
 OwnInstrs(ms, j) == {<<c, j>> : c \in ms[j].own}
